@@ -1,56 +1,151 @@
 ------------------------------ MODULE GlobFind ------------------------------
 (***************************************************************************)
-(* C16 -- Copyright.find_files_paragraph over HISTORIES of one document:   *)
-(* the Files field of any paragraph may be re-assigned in place between    *)
-(* lookups (p.files = [...]), and every lookup must return the last        *)
-(* paragraph that matches NOW.  doc = <<paragraph>> with every paragraph   *)
-(* drawn from FPool; actions SetFiles(k, ps) and Find(nm) in any order.    *)
-(* The current code keeps no per-document state, so Find is the loop       *)
-(* ImplFind of Glob.tla; TLC checks FindIsLast on every transition of the  *)
-(* closed state space and the LTS is emitted as EDGE lines and replayed.   *)
-(* Negative control: LookupMemo = TRUE adds a name -> paragraph memo that  *)
-(* is re-validated only against the remembered paragraph (seeded change    *)
-(* C16-seedB): after a LATER paragraph starts to match, the earlier one is *)
-(* still returned and TLC reports FindIsLast violated.                     *)
+(* C16 -- Copyright.find_files_paragraph over HISTORIES of one document.   *)
+(*                                                                         *)
+(* Reference layer.  Every Files paragraph has an IDENTITY k = 1, 2, ...   *)
+(* in the order the paragraphs came into the document: the Files           *)
+(* paragraphs of a parsed document are numbered in text order, a paragraph *)
+(* added with add_files_paragraph gets the next number ("inserted directly *)
+(* after the last FilesParagraph": it becomes the LAST Files paragraph of  *)
+(* the document).  doc[k] = the patterns paragraph k holds NOW.  Between   *)
+(* lookups                                                                 *)
+(*   SetFiles(k, ps)  p.files = [...]             (the property setter)    *)
+(*   RawSet(k, ps)    data['Files'] = 'text'      (through the Deb822 the  *)
+(*                    creator of FilesParagraph(data) kept, which the      *)
+(*                    RestrictedWrapper docstring allows; the wrapper      *)
+(*                    shows the new text: p['Files'], dump())              *)
+(*   AddFiles(ps)     c.add_files_paragraph(p)                             *)
+(*   AddLicense       c.add_license_paragraph(l)  (appended at the end)    *)
+(*   Reparse          c := Copyright(c.dump())    (identities survive as   *)
+(*                    tags the harness puts into an extra field)           *)
+(* may happen in any order and every lookup must return the last paragraph *)
+(* that matches NOW = the matching paragraph with the greatest identity:   *)
+(* RefFind(doc, nm) of Glob.tla.  Stand-alone License paragraphs do not    *)
+(* exist at this level: they must not influence any lookup.                *)
+(*                                                                         *)
+(* Implementation layer.  lay = the private paragraph list: 0 for a        *)
+(* stand-alone License paragraph, k for Files paragraph k.  Any layout of  *)
+(* <= MaxFiles Files and <= MaxLic License paragraphs is an initial state  *)
+(* (a document parsed from text, e.g. Files, License, Files), so is the    *)
+(* empty document.  add_files_paragraph scans lay for the last Files       *)
+(* paragraph and inserts behind it; Find is the loop ImplFind of Glob.tla  *)
+(* over the Files paragraphs in lay order.  TLC checks ImplOrder (Files    *)
+(* identities ascend along lay) in every state and FindIsLast on every     *)
+(* transition of the closed state space; the LTS (states = <<doc, lay>>)   *)
+(* is emitted as EDGE lines and replayed on real documents.                *)
+(*                                                                         *)
+(* Negative controls (each makes TLC report FindIsLast violated):          *)
+(*   LookupMemo = TRUE       a name -> paragraph memo re-validated only    *)
+(*                           against the remembered paragraph (seeded      *)
+(*                           change C16-seedB)                             *)
+(*   FilesEndCounter = TRUE  the insert position is a counter of Files     *)
+(*                           paragraphs kept by the parser and by          *)
+(*                           add_files_paragraph instead of a scan: wrong  *)
+(*                           as soon as a License paragraph precedes a     *)
+(*                           Files paragraph (seeded change C16-seedJ;     *)
+(*                           also violates ImplOrder)                      *)
+(*   ScanStopsAtLicense = TRUE  the scan stops at the first paragraph that *)
+(*                           is not a Files paragraph                      *)
+(* The per-paragraph machinery behind RawSet (raw text / converted value / *)
+(* compiled pattern) is modelled in GlobCache.tla.                         *)
 (***************************************************************************)
 EXTENDS Glob
 
-CONSTANTS FPool,        \* pattern lists a paragraph's Files field takes
-          FNames,       \* names looked up
-          NParas,       \* number of Files paragraphs
-          LookupMemo    \* FALSE
+CONSTANTS FPool,              \* pattern lists a paragraph's Files field takes
+          FNames,             \* names looked up
+          MaxFiles,           \* bound on Files paragraphs
+          MaxLic,             \* bound on stand-alone License paragraphs
+          LookupMemo,         \* FALSE
+          FilesEndCounter,    \* FALSE
+          ScanStopsAtLicense  \* FALSE
 
-VARIABLES memo,         \* name -> remembered paragraph index (0 = none); unused unless LookupMemo
-          res           \* result of the last call: index, 0 = None, -1 = format error, -9 after SetFiles
+VARIABLES lay,          \* layout of the document (see above)
+          fend,         \* FilesEndCounter only: the cached insert position; else 0
+          memo,         \* name -> remembered paragraph (0 = none); unused unless LookupMemo
+          res           \* result of the last call: identity, 0 = None, -1 = format error, -9 otherwise
 
-fvars == <<doc, n, memo, res>>
+fvars == <<doc, n, lay, fend, memo, res>>
+
+NoMemo == [nm \in FNames |-> 0]
+RECURSIVE Count(_, _, _)
+Count(s, i, lic) == IF i > Len(s) THEN 0
+                    ELSE (IF (s[i] = 0) = lic THEN 1 ELSE 0) + Count(s, i + 1, lic)
+NFiles(s) == Count(s, 1, FALSE)
+NLic(s)   == Count(s, 1, TRUE)
+FilesOf(s) == SelectSeq(s, LAMBDA x : x # 0)
+
+\* layouts of parsed documents: identities ascend in text order
+Number(s) == [i \in 1..Len(s) |-> IF s[i] = 0 THEN 0 ELSE NFiles(SubSeq(s, 1, i))]
+Shapes == UNION {[1..m -> {0, 1}] : m \in 0..(MaxFiles + MaxLic)}
+InitLays == {Number(s) : s \in {t \in Shapes : NFiles(t) <= MaxFiles /\ NLic(t) <= MaxLic}}
 
 Edge(op, args) == (Emit # "none") =>
-    PrintT(<<"EDGE", ToJson([from |-> doc, op |-> op, args |-> args, res |-> res',
-                             alt |-> IF op = "find" THEN LenientFind(doc, args[1]) ELSE 0, to |-> doc'])>>)
+    PrintT(<<"EDGE", ToJson([from |-> [d |-> doc, lay |-> lay], op |-> op, args |-> args, res |-> res',
+                             alt |-> IF op = "find" THEN LenientFind(doc, args[1]) ELSE 0,
+                             to |-> [d |-> doc', lay |-> lay']])>>)
 
-FInit == /\ doc \in [1..NParas -> FPool]
-         /\ n = <<>> /\ memo = [nm \in FNames |-> 0] /\ res = -9
+FInit == /\ lay \in InitLays
+         /\ doc \in [1..NFiles(lay) -> FPool]
+         /\ fend = (IF FilesEndCounter THEN NFiles(lay) ELSE 0)
+         /\ n = <<>> /\ memo = NoMemo /\ res = -9
 
-SetFiles(k, ps) == /\ doc' = [doc EXCEPT ![k] = ps] /\ res' = -9 /\ UNCHANGED <<n, memo>>
+SetFiles(k, ps) == /\ doc' = [doc EXCEPT ![k] = ps] /\ res' = -9 /\ UNCHANGED <<n, lay, fend, memo>>
                    /\ Edge("setfiles", <<k, ps>>)
+\* at this level the same step: the paragraph holds ps now (GlobCache.tla has the machinery in between)
+RawSet(k, ps)   == /\ doc' = [doc EXCEPT ![k] = ps] /\ res' = -9 /\ UNCHANGED <<n, lay, fend, memo>>
+                   /\ Edge("rawset", <<k, ps>>)
+
+\* last_i of add_files_paragraph (1-based; 0 = no Files paragraph): insert behind it
+RECURSIVE Scan(_, _, _)
+Scan(s, i, last) == IF i > Len(s) THEN last
+                    ELSE IF s[i] # 0 THEN Scan(s, i + 1, i)
+                    ELSE IF ScanStopsAtLicense THEN last
+                    ELSE Scan(s, i + 1, last)
+InsertPos == IF FilesEndCounter THEN fend ELSE Scan(lay, 1, 0)
+
+AddFiles(ps) == /\ Len(doc) < MaxFiles
+                /\ doc' = Append(doc, ps)
+                /\ lay' = SubSeq(lay, 1, InsertPos) \o <<Len(doc) + 1>> \o SubSeq(lay, InsertPos + 1, Len(lay))
+                /\ fend' = (IF FilesEndCounter THEN fend + 1 ELSE fend)
+                /\ res' = -9 /\ UNCHANGED <<n, memo>>
+                /\ Edge("addfiles", <<ps>>)
+
+AddLicense == /\ NLic(lay) < MaxLic
+              /\ lay' = Append(lay, 0) /\ res' = -9 /\ UNCHANGED <<doc, n, fend, memo>>
+              /\ Edge("addlicense", <<>>)
+
+\* dump and parse again: a new Copyright object over the same paragraphs in the same order
+Reparse == /\ fend' = (IF FilesEndCounter THEN NFiles(lay) ELSE fend)
+           /\ memo' = NoMemo /\ res' = -9 /\ UNCHANGED <<doc, n, lay>>
+           /\ Edge("reparse", <<>>)
+
+\* the loop of find_files_paragraph over all_files_paragraphs(), identities instead of positions
+ImplFindLay(d, s, nm) == LET ord == FilesOf(s)
+                             r   == ImplFind([i \in 1..Len(ord) |-> d[ord[i]]], nm)
+                         IN  IF r > 0 THEN ord[r] ELSE r
 
 Find(nm) ==
-   /\ n' = nm /\ UNCHANGED doc
+   /\ n' = nm /\ UNCHANGED <<doc, lay, fend>>
    /\ IF LookupMemo /\ memo[nm] # 0 /\ ImplMatches(doc[memo[nm]], nm) = "match"
       THEN res' = memo[nm] /\ UNCHANGED memo
-      ELSE /\ res' = ImplFind(doc, nm)
+      ELSE /\ res' = ImplFindLay(doc, lay, nm)
            /\ memo' = IF LookupMemo THEN [memo EXCEPT ![nm] = IF res' > 0 THEN res' ELSE 0] ELSE memo
    /\ Edge("find", <<nm>>)
 
-FNext == (\E k \in 1..NParas, ps \in FPool : SetFiles(k, ps)) \/ (\E nm \in FNames : Find(nm))
+FNext == \/ \E k \in 1..Len(doc), ps \in FPool : SetFiles(k, ps) \/ RawSet(k, ps)
+         \/ \E ps \in FPool : AddFiles(ps)
+         \/ AddLicense \/ Reparse
+         \/ \E nm \in FNames : Find(nm)
 FSpec == FInit /\ [][FNext]_fvars
-FView == <<doc, memo>>
+FView == <<doc, lay, fend, memo>>
 
 FindIsLast == [][\A nm \in FNames : Find(nm) => res' = RefFind(doc, nm)]_fvars
+\* the Files paragraphs stand in the order of their identities, whatever License paragraphs are in between
+ImplOrder  == FilesOf(lay) = [i \in 1..Len(doc) |-> i]
 
 \* constants of MC_GlobFind*.cfg
 MCFPool  == { << <<97>> >>, << <<42>> >>, << <<98>>, <<97, 42>> >>, << <<98, 63>> >> }
+MCFPoolS == { << <<42>> >>, << <<98>>, <<97, 42>> >>, << <<98, 63>> >> }                \* quick
 MCFPoolE == MCFPool \cup { << <<92, 97>> >> }                \* with an ill-formed list (thorough)
 MCFNames == { <<97>>, <<98>>, <<97, 98>>, <<98, 10>> }
 =============================================================================
